@@ -813,6 +813,35 @@ static void init_vc() {
     vc_add("notation-attributes-undeclared-notation-in-list", {EL_R, EL_E, "<!NOTATION n1 SYSTEM \"n1\">", "<!ATTLIST e p NOTATION (n1|n9) #IMPLIED>"}, "<r><e/></r>", 1);
     vc_add("no-duplicate-tokens-notation", {EL_R, EL_E, "<!NOTATION n1 SYSTEM \"n1\">", "<!ATTLIST e p NOTATION (n1|n1) #IMPLIED>"}, "<r><e/></r>", 1);
     vc_add("no-duplicate-tokens-enumeration", {EL_R, EL_E, "<!ATTLIST e p (x|y|x) #IMPLIED>"}, "<r><e/></r>", 1);
+    // ---- token lists whose tokens are prefixes of one another (a, ab, abc) in every order, with duplicates: VC Enumeration / Notation Attributes / No Duplicate
+    //      Tokens must depend on token equality only, not on the position of a token in the list or on what it is a prefix of
+    {
+        const char* T[] = {"a", "ab", "abc", "b"};
+        const char* V[] = {"a", "ab", "abc", "b", "abcd"};
+        const std::string NOTS = "<!NOTATION a SYSTEM \"a\"><!NOTATION ab SYSTEM \"ab\"><!NOTATION abc SYSTEM \"abc\"><!NOTATION b SYSTEM \"b\">";
+        for (int len = 1; len <= 3; len++) {
+            int n = 1; for (int i = 0; i < len; i++) n *= 4;
+            for (int w = 0; w < n; w++) {
+                std::vector<std::string> toks; int r = w; for (int i = 0; i < len; i++) { toks.push_back(T[r % 4]); r /= 4; }
+                bool dup = false; for (size_t i = 0; i < toks.size(); i++) for (size_t j = i + 1; j < toks.size(); j++) if (toks[i] == toks[j]) dup = true;
+                std::string list; for (auto& t : toks) list += (list.empty() ? "" : "|") + t;
+                for (int notation = 0; notation < 2; notation++) {
+                    std::string type = notation ? "NOTATION (" + list + ")" : "(" + list + ")";
+                    std::vector<std::string> base = {EL_R, EL_E};
+                    if (notation) base.push_back(NOTS);
+                    for (const char* v : V) {
+                        bool in = false; for (auto& t : toks) if (t == v) in = true;
+                        std::vector<std::string> d = base; d.push_back("<!ATTLIST e p " + type + " #IMPLIED>");
+                        vc_add(std::string(notation ? "notation" : "enumeration") + "-token-list (" + list + ") value " + v, d, std::string("<r><e p=\"") + v + "\"/></r>", (dup || !in) ? 1 : 0);
+                        if (!notation && len >= 2) {
+                            std::vector<std::string> d2 = base; d2.push_back("<!ATTLIST e p " + type + " \"" + v + "\">");
+                            vc_add("enumeration-token-list (" + list + ") default " + v + " attribute absent", d2, "<r><e/></r>", (dup || !in) ? 1 : 0);
+                        }
+                    }
+                }
+            }
+        }
+    }
     vc_add("enumeration-ok", {EL_R, EL_E, "<!ATTLIST e p (x|y|z) #IMPLIED>"}, "<r><e p=\"z\"/></r>", 0);
     vc_add("notation-declared-for-unparsed-entity", {EL_R, "<!ENTITY u SYSTEM \"u.bin\" NDATA n9>"}, "<r/>", 1);
     vc_add("unparsed-entity-ok", {EL_R, "<!NOTATION n1 PUBLIC \"pub\">", "<!ENTITY u SYSTEM \"u.bin\" NDATA n1>", "<!ATTLIST r x ENTITY #IMPLIED>"}, "<r x=\"u\"/>", 0);
